@@ -118,7 +118,13 @@ class Lexer:
         self.re_pattern = r"/(?P<G_RE>.+?)/(?P<G_RE_FLAGS>[aims]*)"
 
         # func(
-        self.function_pattern = r"(?P<G_FUNC>[a-z][a-z_0-9]+)\(\s*"
+        # A word operator directly followed by a parenthesis - `not(`, `and(`,
+        # `or(` - is not a function call.
+        self.function_pattern = (
+            rf"(?!{self.logical_not_pattern}|{self.logical_and_pattern}"
+            rf"|{self.logical_or_pattern})"
+            r"(?P<G_FUNC>[a-z][a-z_0-9]+)\(\s*"
+        )
 
         self.rules = self.compile_rules()
 
